@@ -85,7 +85,7 @@ func runC10(c *core.Ctx) {
 		return
 	}
 	// ---- worker
-	if foldShape(c, "acc-provenance", "fork.Fold#worker", w, w.An.Headers[0], vals, false) {
+	if foldShapeX(c, "acc-provenance", "fork.Fold#worker", w, w.An.Headers[0], vals, false, true) {
 		c.Ok("acc-provenance", "fork.Fold#worker", w.Fn.Pos(), "acc := Empty(); acc = Combine(acc, x); one send(partials, acc) on every exit")
 		c.Ok("combine-once", "fork.Fold#worker", w.Fn.Pos(), "one Combine(acc, x) per received element")
 	}
@@ -211,7 +211,11 @@ func collectorRules(c *core.Ctx, s *Stage, col, w *Goroutine, vals, result *ir.T
 			}
 			recvs := p.Events(ir.KRecv)
 			m, _, args, isC := callParts(v)
-			good := isC && m == "Combine" && len(args) == 3 && ir.Same(args[1], sym) && len(recvs) == 1 && ir.Same(recvs[0].A[0], vals) && (ir.Same(args[2], recvs[0].R) || args[2].Op == "extract" && args[2].Aux == "0" && len(args[2].Args) == 1 && ir.Same(args[2].Args[0], recvs[0].R))
+			isPartial := func(t *ir.Term) bool {
+				return len(recvs) == 1 && (ir.Same(t, recvs[0].R) || t.Op == "extract" && t.Aux == "0" && len(t.Args) == 1 && ir.Same(t.Args[0], recvs[0].R))
+			}
+			good := isC && m == "Combine" && len(args) == 3 && len(recvs) == 1 && ir.Same(recvs[0].A[0], vals) &&
+				(ir.Same(args[1], sym) && isPartial(args[2]) || ir.Same(args[2], sym) && isPartial(args[1])) // either order: the monoid is commutative (the property's premise)
 			nComb := 0
 			for _, st := range p.Events(ir.KCall) {
 				if st.Method != nil && st.Method.Name() == "Combine" {
